@@ -26,12 +26,34 @@ let ventry e =
   L [S (Uml.decl_line e); S (Uml.def_head e); L [S c; S r; S n; L (List.map (fun (t, x) -> L [S t; S x]) ps); vbool k]; S e.Uml.en_owner]
 let vopt_entries = function None -> L [] | Some es -> L [L (List.map ventry es)]
 
+(* the raw diagram of the include / forward-declaration computation (Model/UmlIncl.v) *)
+let ityped v = match lst v with [t; m; mu] -> { UmlIncl.it_type = str t; it_mod = str m; it_mult = str mu } | _ -> failwith "ityped"
+let iop v = match lst v with [r; rm; ps] -> { UmlIncl.io_ret = str r; io_retmod = str rm; io_params = List.map ityped (lst ps) } | _ -> failwith "iop"
+let icls v = match lst v with
+  | [i; n; ns; pu; ats; ops] -> { UmlIncl.ic_id = str i; ic_name = str n; ic_ns = str ns; ic_pure = b pu; ic_attrs = List.map ityped (lst ats); ic_ops = List.map iop (lst ops) }
+  | _ -> failwith "icls"
+let iinh v = match lst v with [t; fi; f; r] -> { UmlIncl.ii_to = str t; ii_from_id = str fi; ii_from = str f; ii_real = b r } | _ -> failwith "iinh"
+let iassoc v = match lst v with
+  | [ty; fi; f; ti; t; fm; tm] -> { UmlIncl.ix_type = str ty; ix_from_id = str fi; ix_from = str f; ix_to_id = str ti; ix_to = str t; ix_from_mult = str fm; ix_to_mult = str tm }
+  | _ -> failwith "iassoc"
+let idiagram v = match lst v with
+  | [cs; is; xs] -> { UmlIncl.i_classes = List.map icls (lst cs); i_inhs = List.map iinh (lst is); i_assocs = List.map iassoc (lst xs) } | _ -> failwith "idiagram"
+let find_icls (d : UmlIncl.idiagram) id = match UmlIncl.find_icls d.UmlIncl.i_classes id with Some c -> c | None -> failwith "class id not in diagram"
+
 let vcs_entry e =
   let ((((c, r), n), ps), _k) = Uml.signature e in
   L [S (UmlCs.cs_line e); vbool (UmlCs.cs_has_body e); L [S c; S r; S n; L (List.map (fun (t, x) -> L [S t; S x]) ps)]; S e.Uml.en_owner; vbool e.Uml.en_realised]
 let vopt_cs = function None -> L [] | Some es -> L [L (List.map vcs_entry es)]
 
 let () =
+  register "incl_all" (function [fuel; nsf; d; id] ->
+      let d = idiagram d in
+      let c = find_icls d (str id) in
+      L [vstrs (UmlIncl.nfd d c); vstrs (UmlIncl.fd d c);
+         (match UmlIncl.header_includes (nat_of_int (int_of fuel)) (b nsf) d c with None -> L [] | Some l -> L [vstrs l]);
+         vstrs (UmlIncl.source_includes (b nsf) d c); vstrs (UmlIncl.forward_decls d c)] | _ -> failwith "arity");
+  register "incl_nsdeps" (function [d] ->
+      L (List.map (fun (ns, deps) -> L [S ns; vstrs deps]) (UmlIncl.namespace_deps (idiagram d))) | _ -> failwith "arity");
   register "uml_ops_cs" (function [fuel; d; vis; id] ->
       let d = diagram d in
       vopt_cs (UmlCs.ops_of_cs (nat_of_int (int_of fuel)) d (str vis) (find_cls d (str id))) | _ -> failwith "arity");
